@@ -507,11 +507,18 @@ class NDNApp:
         del self._prefix_tree[name]
 
     def _on_nack(self, name: FormalName, nack_reason: int):
+        # As in express_raw_interest, an implicit digest is not part of the node's name
+        if name and Component.get_type(name[-1]) == Component.TYPE_IMPLICIT_SHA256:
+            node_name = name[:-1]
+            implicit_sha256 = Component.get_value(name[-1])
+        else:
+            node_name = name
+            implicit_sha256 = b''
         # A Nack may name an Interest that is not (or no longer) pending
-        node = self._int_tree.get(name)
+        node = self._int_tree.get(node_name)
         if node:
-            if node.nack_interest(nack_reason):
-                del self._int_tree[name]
+            if node.nack_interest(nack_reason, implicit_sha256):
+                del self._int_tree[node_name]
 
     async def _on_data(self, name: FormalName, meta_info: MetaInfo,
                        content: BinaryStr | None, sig: SignaturePtrs, raw_packet):
